@@ -55,13 +55,22 @@ def run(tier):
         res = rr.payloads.get("RESULT", [])
         if not res or res[0]["n"] != len(recs):
             raise vlib.ToolError("HubSyncTrace did not consume the trace " + rr.raw_tail[-300:])
+        soft = 0
         for (ln, q) in res[0]["bad"]:
             e = recs[ln - 1]
-            if e["kind"] == "race" and not e["held"]:
-                continue           # the window was not produced (nothing to stage): not an instance of the scenario
+            if e["kind"] == "race" and (not e["held"] or (e["exitB"] != 0 and q != "undisturbed-client-failed")):
+                continue           # the window was not produced (nothing to stage / B never committed): not an instance of the scenario
             if e["kind"] == "large":
                 vd.violation(f"large-tree-{e['n']}-{q}", f"{q}: a local tree of {e['n']} files: first run exit {e['exit']} landed={e['landed']}; "
                              f"second run exit {e['second']['exit']} sent={e['second']['sent']} ({e['stderr'][-100:].strip()})", {"kind": "hubsync-large", "record": e, "n": e["n"]})
+                continue
+            if q in ("sequential-run-failed", "undisturbed-client-failed"):
+                # C13 binds runs that exit 0 (and runs that fail BECAUSE the hub changed); a run that fails for another
+                # reason - a name the wire cannot carry, a reserved path - breaks no clause: reported, not an alarm
+                soft += 1
+                if soft <= 3:
+                    vd.nonconformance(f"{q} (no clause of C13 binds a run that refuses to start or stops with its own error): "
+                                      + json.dumps({k: v for k, v in e.items() if k != "names"})[:300])
                 continue
             key = f"{e['kind']}-{q}-" + "".join(map(str, e.get("local", e.get("localA")))) + "-" + "".join(map(str, e["hub"]))
             vd.violation(key, f"{q}: " + json.dumps({k: v for k, v in e.items() if k != "names"})[:600], {"kind": "hubsync", "record": e, "names": hs.NAMES})
